@@ -184,10 +184,21 @@ func (cl *Cluster) restart(who int) {
 	} else if cl.cfg.WALDamage && !n.doubleTap && cl.fault.Bool(1, 2) {
 		cl.damageWAL(n)
 	}
+	var rj *replayJudge
+	if cl.mode == ModeWALReplay && !n.noReplayDamage {
+		rj = cl.damageForReplay(n)
+	}
+	n.noReplayDamage = false
 	cl.c.Fault("restart")
 	cl.tracef("restart node%d", who)
 	var err error
+	n.replayMsgs, n.replayDone, n.replayErr = 0, false, ""
 	site, msg, panicked := kernelTry(func() { err = n.start() })
+	if rj != nil {
+		if cl.judgeReplay(n, rj, panicked, site, msg, err) {
+			return
+		}
+	}
 	if !panicked && err == nil && n.doubleTap {
 		// double tap: the node dies again right after its WAL catch-up replay (which
 		// may have signed votes in replay mode), before anything newer is signed,
